@@ -84,9 +84,19 @@ pub fn fidelity(cx: &mut CaseCtx, p: &Program, lay_bytes: &[u8], layouts: usize)
 fn case(cx: &mut CaseCtx, input: Input, layouts: usize, cfg: &GenCfg) -> CaseResult {
     let (lay_bytes, prog_bytes) = split_input(input.bytes());
     let mut u = Unstructured::new(prog_bytes);
-    let (p, labels) = gen_program(&mut u, cfg);
+    let (mut p, labels) = gen_program(&mut u, cfg);
     for l in labels {
         cx.label(l);
+    }
+    // a file without definitions may also come without a module declaration: only file attributes
+    // (or nothing at all) - still a well-formed file whose attributes must be kept
+    for f in p.files.iter_mut() {
+        if f.defs.is_empty() && crate::gen::pick(&mut u, 3) == 0 {
+            f.module = None;
+            cx.label(if f.file_attrs.is_empty() { "file-with-nothing" } else { "file-with-attributes-only" });
+        } else if f.defs.is_empty() {
+            cx.label("file-with-module-only");
+        }
     }
     let depth2 = p.files.iter().any(|f| f.defs.iter().any(def_has_nested_type));
     cx.nontrivial = p.def_count() >= 3 || depth2;
@@ -141,7 +151,7 @@ impl Check for C02 {
         "C02"
     }
     fn rule(&self) -> String {
-        "proptest choice sequences -> well-formed multi-file program (constructive generator: every definition kind, modifiers, tags, enumerator values at range limits, attributes with escaped arguments, type expressions nested to depth 3, keyword identifiers, forward and cross-module references) x k=3 (quick) / 5 (thorough) token-level layouts (white space incl. tabs/CRLF/U+3000, // and /* */ comments in 7 shapes between any two tokens, optional commas in 4 styles, dec/hex/bin literals with underscores, gratuitous string escapes, optional identifier escapes); oracle: no error diagnostic and observe(AST) == canonical(model) for every layout. Non-trivial = >= 3 definitions or a type nested >= 2 deep; distinct by hash of the abstract program".into()
+        "proptest choice sequences -> well-formed multi-file program (constructive generator: every definition kind, modifiers, tags, enumerator values at range limits, attributes with escaped arguments, type expressions nested to depth 3, keyword identifiers, forward and cross-module references; files without definitions, also without a module declaration and with file attributes only) x k=3 (quick) / 5 (thorough) token-level layouts (white space incl. tabs/CRLF/U+3000, // and /* */ comments in 7 shapes between any two tokens, optional commas in 4 styles, dec/hex/bin literals with underscores, gratuitous string escapes, optional identifier escapes); oracle: no error diagnostic and observe(AST) == canonical(model) for every layout. Non-trivial = >= 3 definitions or a type nested >= 2 deep; distinct by hash of the abstract program".into()
     }
     fn assumptions(&self) -> Vec<String> {
         vec![
